@@ -445,9 +445,12 @@ func c05Scenarios(thorough bool) []c05Scenario {
 	}
 	for _, cfg := range cfgs {
 		for _, su := range suites {
+			if !thorough && cfg == "A3" && su == "two" {
+				continue // 3 instances x 2 cases x gRPC peers: thorough tier
+			}
 			for _, mode := range []string{"both", "client", "server"} {
 				for fi, f := range filters {
-					if !thorough && fi > 3 && !(cfg == "A3" && su == "two") {
+					if !thorough && fi > 3 && !(cfg == "A3" && su == "one") && !(cfg == "A2" && su == "two") {
 						continue
 					}
 					if fi >= 6 && mode == "both" {
